@@ -217,6 +217,12 @@ pub fn c10(tier: &str) -> i32 {
     absorb_env(&mut out, &c, 2, 3, run_env::<2, 3>(&c), "market-env", false);
     let c = ecfg("MarketEnv<3,2>", true, &[1, 2, 3], 100, 3, 2, 0, &cl);
     absorb_env(&mut out, &c, 3, 2, run_env::<3, 2>(&c), "market-env", false);
+    // more instructions in a step than the step has time units (the stamps run past the end of the step and
+    // the clock is moved back): the handed-out snapshot is still the book at the END of the step
+    let c = ecfg("Env<3>: step size 1, batches of up to 4", false, &[1], 1, s, 2, 0, &cl);
+    absorb_env(&mut out, &c, 1, 3, run_env::<1, 3>(&c), "env", false);
+    let c = ecfg("MarketEnv<2,3>: step size 1, shared batches of up to 3", true, &[1, 2], 1, 3, 2, 0, &cl);
+    absorb_env(&mut out, &c, 2, 3, run_env::<2, 3>(&c), "market-env", false);
     let c = top_of_axis_cfg("Env<3>: prices just below 2^32-1 (ask level walks pass the top)", s, 3, &cl);
     absorb_env(&mut out, &c, 1, 3, run_env::<1, 3>(&c), "env", false);
     let c = top_of_axis_cfg("Env<10>: prices just below 2^32-1", s - 1, 2, &cl);
